@@ -266,6 +266,14 @@ class BaseAssembler:
     def prepare(self):
         self.in_macro = False
 
+    def begin_object(self):
+        """Called when the code for a new object file starts.
+
+        The assembler lives as long as the architecture does. Forget
+        what is counted per object file here.
+        """
+        pass
+
     def emit(self, instruction):
         if self.in_macro:
             self.recording.append(instruction)
